@@ -16,10 +16,11 @@ from __future__ import annotations
 
 import asyncio
 import itertools
+import os
 
 from hypothesis import strategies as st
 
-from vk.core import exc_site
+from vk.core import cpu_count, exc_site
 from vk.engine import hyp_search, parallel
 from vk.vloop import BudgetExceeded, Deadlock, run_case
 from vk.xharness import XH
@@ -423,16 +424,51 @@ def _hyp_oracle(ctx, case) -> None:
 
 
 def _hyp_shard(ctx, n: int) -> None:
-    hyp_search(ctx, cases(), _hyp_oracle, n)
+    hyp_search(ctx, cases(), _hyp_oracle, n, shrink_cap_s=5.0 if ctx.quick else 30.0)
 
+
+
+def _probe_same_name() -> int:
+    """Observation only (not judged): live instances after start_task of two *different*
+    Task objects that share one name. The registry keys by object, so both run."""
+    from xknx.core import Task
+
+    async def scenario(loop):
+        h = await XH.create(loop, rate_limit=0)
+
+        async def target():
+            await asyncio.sleep(100)
+
+        a = Task(name="verif.same", target=target)
+        b = Task(name="verif.same", target=target)
+        h.xknx.task_registry.start_task(a)
+        h.xknx.task_registry.start_task(b)
+        await asyncio.sleep(1)
+        live = sum(1 for t in asyncio.all_tasks() if t.get_name() == "verif.same" and not t.done())
+        await h.close()
+        return live
+
+    live, _ = run_case(scenario, max_iters=50_000)
+    return live
+
+
+def _procs(want: int = 8) -> int:
+    """Pool size: scheduling only (shards and seeds are the same for every pool size).
+    On a saturated machine the fork pool costs several times the sequential run."""
+    try:
+        load = os.getloadavg()[0]
+    except OSError:
+        load = 0.0
+    return want if load < cpu_count() else 1
 
 def run(ctx) -> None:
     L = ctx.n(3, 4)
     parts = 8
-    parallel(ctx, _enum_shard, [(L, p, parts) for p in range(parts)], procs=8)
-    parallel(ctx, _hyp_shard, [(ctx.n(400, 6000),)] * 8, procs=8)
+    parallel(ctx, _enum_shard, [(L, p, parts) for p in range(parts)], procs=_procs())
+    parallel(ctx, _hyp_shard, [(ctx.n(250, 2500),)] * 8, procs=_procs())
     ctx.notes["exhaustive_op_sequences_up_to"] = L
     ctx.notes["option_combinations"] = len(all_configs())
+    ctx.notes["observation_live_instances_two_task_objects_same_name"] = _probe_same_name()
     ctx.exhaustive = False
 
 
